@@ -16,17 +16,21 @@
 (* Kernel \in {"prefix", "slice"}: prefix-sum kernels index sums[0..n];   *)
 (* slice kernels take X[s:e] (GaussianCovCost, LocalAnomalyScore's        *)
 (* surroundings).                                                          *)
-(* CheckMode = "bounds" (repaired) | "nobounds" (pinned tree; negative    *)
-(* configuration: must violate NoSilentWrap).                              *)
+(* The array passed in is the row under test alone or next to admissible   *)
+(* rows (pos), as a signed or an unsigned integer array (dtype).           *)
+(* CheckMode / DiffMode select the repaired code or known-bad variants     *)
+(* (negative configurations, must violate the invariants).                 *)
 (***************************************************************************)
 EXTENDS Common, TLC, Json
 
 CONSTANTS NMax,        \* data lengths 3..NMax
           Margin,      \* cut entries range over -Margin .. n+Margin
-          CheckMode, Emit
+          CheckMode,   \* "bounds" | "nobounds" (pinned tree) | "firstlast" (bounds of first/last ROW only)
+          DiffMode,    \* "exact" | "wrapping" (np.diff on an unsigned array wraps around; pinned tree)
+          Emit
 
-VARIABLES n, kind, ms, kernel, shape, cut, stage, wrapped, truncated
-vars == <<n, kind, ms, kernel, shape, cut, stage, wrapped, truncated>>
+VARIABLES n, kind, ms, kernel, shape, dtype, cut, pos, stage, wrapped, truncated
+vars == <<n, kind, ms, kernel, shape, dtype, cut, pos, stage, wrapped, truncated>>
 
 Shapes == {"ok", "float", "narrow", "wide", "3d"}
 
@@ -38,22 +42,39 @@ AcceptsLocal(c, nn, m)    == /\ Len(c) = 4 /\ InData(c, nn)
                              /\ c[1] < c[2] /\ c[2] < c[3] /\ c[3] < c[4]
                              /\ c[3] - c[2] >= m
                              /\ (c[2] - c[1]) + (c[4] - c[3]) >= m
-Accepts(k, c, nn, m, sh) ==
-    /\ sh = "ok"
-    /\ IF k = 2 THEN AcceptsInterval(c, nn, m)
-       ELSE IF k = 3 THEN AcceptsChange(c, nn, m) ELSE AcceptsLocal(c, nn, m)
+AcceptsRow(k, c, nn, m) ==
+    IF k = 2 THEN AcceptsInterval(c, nn, m)
+    ELSE IF k = 3 THEN AcceptsChange(c, nn, m) ELSE AcceptsLocal(c, nn, m)
+\* a cuts array is admissible iff it is a well-shaped integer array and EVERY row is admissible
+Accepts(k, rows, nn, m, sh) == sh = "ok" /\ \A r \in 1..Len(rows) : AcceptsRow(k, rows[r], nn, m)
 
 (* --------------------------- implementation layer ---------------------- *)
-\* check_cuts_array(cuts, min_size, last_dim_size): np.diff(cuts) >= min_size
-DiffsAtLeast(c, m) == \A i \in 1..(Len(c) - 1) : c[i + 1] - c[i] >= m
+Box(nn, k) == [1..k -> (0 - Margin)..(nn + Margin)]
+\* some admissible row to put next to the row under test (none exists for short data / large ms)
+FillerRow(nn, k, m) == IF k = 2 THEN <<0, nn>> ELSE IF k = 3 THEN <<0, m, nn>> ELSE <<0, 1, 1 + m, nn>>
+HasFiller(nn, k, m) == AcceptsRow(k, FillerRow(nn, k, m), nn, m)
+Filler(nn, k, m)    == FillerRow(nn, k, m)
+\* the array passed to evaluate: the row under test alone, or among admissible rows
+Rows == LET f == Filler(n, kind, ms) IN
+        IF pos = "only" THEN <<cut>> ELSE IF pos = "first" THEN <<cut, f>>
+        ELSE IF pos = "last" THEN <<f, cut>> ELSE <<f, cut, f>>
+
+\* np.diff(cuts, axis=1) >= min_size; on an unsigned array a negative difference wraps around
+DiffGE(a, b, m) == IF b - a >= 0 THEN b - a >= m ELSE (DiffMode = "wrapping" /\ dtype = "unsigned")
+DiffsAtLeast(c, m) == \A i \in 1..(Len(c) - 1) : DiffGE(c[i], c[i + 1], m)
+RowPasses(c) ==
+    IF kind = 4
+    THEN /\ DiffsAtLeast(c, 1)                  \* LocalAnomalyScore: default min_size = 1, then
+         /\ DiffGE(c[2], c[3], ms)              \* inner size and pooled surrounding size
+         /\ (c[2] - c[1]) + (c[4] - c[3]) >= ms
+    ELSE DiffsAtLeast(c, ms)
+AllEntries(rows) == {rows[r][i] : r \in 1..Len(rows), i \in 1..kind}
 CheckPasses ==
+    LET rows == Rows IN
     /\ shape = "ok"                              \* ndim, integer dtype, width
-    /\ IF kind = 4
-       THEN /\ DiffsAtLeast(cut, 1)              \* LocalAnomalyScore: default min_size = 1, then
-            /\ cut[3] - cut[2] >= ms             \* inner size and pooled surrounding size
-            /\ (cut[2] - cut[1]) + (cut[4] - cut[3]) >= ms
-       ELSE DiffsAtLeast(cut, ms)
-    /\ (CheckMode = "bounds" => (cut[1] >= 0 /\ cut[Len(cut)] <= n))
+    /\ \A r \in 1..Len(rows) : RowPasses(rows[r])
+    /\ (CheckMode = "bounds" => (Min(AllEntries(rows)) >= 0 /\ Max(AllEntries(rows)) <= n))
+    /\ (CheckMode = "firstlast" => (Min(Range(rows[1])) >= 0 /\ Max(Range(rows[Len(rows)])) <= n))
 
 Init ==
     /\ n \in 3..NMax
@@ -61,14 +82,17 @@ Init ==
     /\ ms \in 1..3
     /\ kernel \in {"prefix", "slice"}
     /\ shape \in Shapes
-    /\ cut \in [1..kind -> (0 - Margin)..(n + Margin)]
-    /\ (shape # "ok" => \A i \in 1..kind : cut[i] = i)    \* one representative per malformed shape
+    /\ dtype \in {"signed", "unsigned"}
+    /\ cut \in Box(n, kind)
+    /\ (dtype = "unsigned" => \A i \in 1..kind : cut[i] >= 0)
+    /\ (shape # "ok" => dtype = "signed" /\ \A i \in 1..kind : cut[i] = i)   \* one representative per malformed shape
+    /\ pos \in IF HasFiller(n, kind, ms) /\ shape = "ok" THEN {"only", "first", "middle", "last"} ELSE {"only"}
     /\ stage = "input" /\ wrapped = FALSE /\ truncated = FALSE
 
 Check ==
     /\ stage = "input"
     /\ stage' = IF CheckPasses THEN "checked" ELSE "rejected"   \* rejected = ValueError
-    /\ UNCHANGED <<n, kind, ms, kernel, shape, cut, wrapped, truncated>>
+    /\ UNCHANGED <<n, kind, ms, kernel, shape, dtype, cut, pos, wrapped, truncated>>
 
 \* Python semantics of sums[i] on an array of n+1 rows, and of X[a:b] on n rows
 IdxWraps(i)      == i < 0 /\ i >= 0 - (n + 1)
@@ -77,14 +101,15 @@ SliceWraps(a, b) == a < 0 \/ b < 0
 SliceTruncs(a, b) == a > n \/ b > n
 Kernel ==
     /\ stage = "checked"
-    /\ IF kernel = "prefix"
-       THEN /\ stage' = IF \E i \in 1..kind : IdxRaises(cut[i]) THEN "indexerror" ELSE "evaluated"
-            /\ wrapped' = \E i \in 1..kind : IdxWraps(cut[i])
+    /\ LET rows == Rows IN
+       IF kernel = "prefix"
+       THEN /\ stage' = IF \E x \in AllEntries(rows) : IdxRaises(x) THEN "indexerror" ELSE "evaluated"
+            /\ wrapped' = \E x \in AllEntries(rows) : IdxWraps(x)
             /\ truncated' = FALSE
        ELSE /\ stage' = "evaluated"
-            /\ wrapped' = \E i \in 1..(kind - 1) : SliceWraps(cut[i], cut[i + 1])
-            /\ truncated' = \E i \in 1..(kind - 1) : SliceTruncs(cut[i], cut[i + 1])
-    /\ UNCHANGED <<n, kind, ms, kernel, shape, cut>>
+            /\ wrapped' = \E r \in 1..Len(rows) : \E i \in 1..(kind - 1) : SliceWraps(rows[r][i], rows[r][i + 1])
+            /\ truncated' = \E r \in 1..Len(rows) : \E i \in 1..(kind - 1) : SliceTruncs(rows[r][i], rows[r][i + 1])
+    /\ UNCHANGED <<n, kind, ms, kernel, shape, dtype, cut, pos>>
 
 Next == Check \/ Kernel
 
@@ -94,14 +119,16 @@ NoSilentWrap     == stage = "evaluated" => ~wrapped /\ ~truncated
 \* ValueError is the only error: no IndexError escapes from a kernel
 OnlyValueError   == stage # "indexerror"
 \* Check rejects exactly the complement of the admissible set
-RejectIffInvalid == /\ stage = "rejected" => ~Accepts(kind, cut, n, ms, shape)
-                    /\ stage \in {"checked", "evaluated"} => Accepts(kind, cut, n, ms, shape)
+RejectIffInvalid == /\ stage = "rejected" => ~Accepts(kind, Rows, n, ms, shape)
+                    /\ stage \in {"checked", "evaluated"} => Accepts(kind, Rows, n, ms, shape)
 
 (* -------------------------------- emission ----------------------------- *)
-\* one line per (n, kind, ms): the admitted cuts; everything else in the box must raise ValueError
-Box(nn, k) == [1..k -> (0 - Margin)..(nn + Margin)]
+\* one line per (n, kind, ms): the admitted rows and the filler row; every other row of the box,
+\* alone or next to admissible rows, signed or unsigned, must raise ValueError
 EmitAll ==
-    (Emit /\ stage = "input" /\ shape = "ok" /\ kernel = "prefix" /\ \A i \in 1..kind : cut[i] = 0 - Margin) =>
+    (Emit /\ stage = "input" /\ shape = "ok" /\ kernel = "prefix" /\ dtype = "signed" /\ pos = "only"
+          /\ \A i \in 1..kind : cut[i] = 0 - Margin) =>
         PrintT(<<"CASE", ToJson([n |-> n, kind |-> kind, ms |-> ms, margin |-> Margin,
-                                 accepted |-> {c \in Box(n, kind) : Accepts(kind, c, n, ms, "ok")}])>>)
+                                 filler |-> IF HasFiller(n, kind, ms) THEN Filler(n, kind, ms) ELSE <<>>,
+                                 accepted |-> {c \in Box(n, kind) : AcceptsRow(kind, c, n, ms)}])>>)
 =============================================================================
